@@ -515,6 +515,9 @@ def showVal : Val → String
 def parsePathTok (t : String) : Option String :=
   if t.startsWith ":" then some (String.ofList (t.toList.drop 1)) else none
 
+/-- `name=value` -/
+def optionTok (t : String) : Bool := t.toList.contains '=' && !t.startsWith "="
+
 def stripFail (t : String) : Option String :=
   if t.startsWith "fail=" then some (String.ofList (t.toList.drop 5)) else none
 
@@ -578,19 +581,20 @@ def execLine (r : RS) (line : String) : RS :=
   let bad : RS := { r with bad := true }
   match tokens line with
   | [] => r
-  | ["newmap", m] =>
+  | "newmap" :: m :: opts =>
+    -- options describe the program's class of the map (`split=` its key delimiter, `eq=`/`ueq=` value
+    -- equality, `falsy=`): objects are identities and keys are lists of names here, so none of them matters
+    if !opts.all optionTok then bad else
     match parseNamed 'm' m with
     | some k =>
       if Dict.contains r.menv m then bad
       else { r with menv := Dict.set r.menv m (.decl k), mdecl := r.mdecl ++ [k] }
     | none => bad
-  | ["newhandle", h, _kind] =>
-    match parseNamed 'h' h with
-    | some k => if r.hdecl.contains k then bad else { r with hdecl := r.hdecl ++ [k] }
-    | none => bad
-  | ["newhandle", h, _kind, f] =>
-    -- `fail=1,3`: the 1st and the 3rd invocation of this handle's load() raise
-    match parseNamed 'h' h, (stripFail f).bind natList? with
+  | "newhandle" :: h :: _kind :: opts =>
+    -- `fail=1,3`: the 1st and the 3rd invocation of this handle's load() raise; the other options (`eq=`,
+    -- `ueq=`, `falsy=`: value equality / truthiness of the handle object) do not matter for identities
+    if !opts.all optionTok then bad else
+    match parseNamed 'h' h, (((opts.filterMap stripFail).head?).getD "-" |> natList?) with
     | some k, some fails =>
       if r.hdecl.contains k then bad
       else
